@@ -195,6 +195,23 @@ bool checkObject(SoPlex& sp, bool withRational, const char* what, bool fmtMps = 
       dup |= checkMirror<Rational>(m, n, sp.numNonzerosRational(),
                                    [&](int i) -> const SVectorBase<Rational>& { return sp.rowVectorRational(i); },
                                    [&](int j) -> const SVectorBase<Rational>& { return sp.colVectorRational(j); }, w + "rational LP: ", fmtMps);
+      // self-consistency of the exact solver's cached bound classification (read through the guarded observer hook):
+      // one entry per row / column, and each entry is the class of the rational bounds
+      if(SoPlexVerifAccess::numRangeTypesRows(sp) != m || SoPlexVerifAccess::numRangeTypesCols(sp) != n)
+         vfz::fail(w + "rational LP: number of cached range types differs from the dimension");
+      Rational pinf(sp.realParam(SoPlex::INFTY)), ninf(-sp.realParam(SoPlex::INFTY));
+      auto cls = [&](const Rational & lo, const Rational & up)
+      {
+         bool fl = lo > ninf, fu = up < pinf;
+         return !fl && !fu ? 0 : (fl && !fu ? 1 : (!fl && fu ? 2 : (lo == up ? 4 : 3)));
+      };
+      for(int i = 0; i < m; i++)
+         if(SoPlexVerifAccess::rowRangeType(sp, i) != cls(sp.lhsRational(i), sp.rhsRational(i)))
+            vfz::fail(w + "rational LP: cached row range type does not match the rational sides");
+      for(int j = 0; j < n; j++)
+         if(SoPlexVerifAccess::colRangeType(sp, j) != cls(sp.lowerRational(j), sp.upperRational(j)))
+            vfz::fail(w + "rational LP: cached column range type does not match the rational bounds");
+      vfz::count("range_types_checked");
    }
    return dup;
 }
@@ -338,6 +355,13 @@ void readLP(int sel, std::string text, bool extMps, bool gz)
    DIdxSet iv;
    int outcome = 0;
    bool dup = false;
+   // one object reading several files in a row: the good LP is read first (no clear in between)
+   if(top == 3 || top == 5)
+   {
+      NameSet grn(16, 256), gcn(16, 256);
+      if(!sp.readFile(g_good.c_str(), &grn, &gcn)) vfz::fail("preload: the good LP could not be read");
+      vfz::count(k + ".preloaded");
+   }
    try
    {
       vfz::LeakScope ls(noNames);
@@ -373,7 +397,14 @@ void readLP(int sel, std::string text, bool extMps, bool gz)
       if(outcome == 0)
       {
          vfz::count(k + ".false");
-         if(sp.numRows() != 0 || sp.numCols() != 0) vfz::fail("after failed read: readFile returned false but the LP is not empty");
+         // a failed read of a fresh object leaves it empty (both _readFile* clear the LP they read into); with a preloaded
+         // LP in rational read mode and SYNCMODE_ONLYREAL only the rational LP is cleared and the old real LP stays -
+         // the property claims usability, not emptiness, so that case is an observation
+         if(sp.numRows() != 0 || sp.numCols() != 0)
+         {
+            if(top == 3 || top == 5) vfz::count("obs.failed_read_keeps_preloaded_lp");
+            else vfz::fail("after failed read: readFile returned false but the LP is not empty");
+         }
       }
       checkObject(sp, false, "after failed read");
    }
